@@ -374,7 +374,7 @@ func c45Gen(seed uint64, run int, tier string, prop string) *Case {
 			case 5, 6:
 				op = tOp(ci, Topen, pickFid(ci, 1), 0, int64(r.Pick(0, 1, 2, 3, 16, 17, 64)), 0, serr, 0, 0, 0, false)
 			case 7:
-				perm := int64(r.Pick(0o644, 0o755, 0x80000000|0o755, 0x02000000, 0x01000000, 0x00800000, 0x00200000, 0x00100000))
+				perm := int64(r.Pick(0o644, 0o755, 0x80000000|0o755, 0x02000000, 0x01000000, 0x00800000, 0x00200000, 0x00100000, 0x08000000|0o644, 0x40000000|0o644, 0x20000000|0o600, 0x04000000|0o644)) // also the bits that mean nothing to the framework: DMAUTH, DMAPPEND, DMEXCL, DMTMP
 				op = tOp(ci, Tcreate, pickFid(ci, 1), 0, int64(r.Pick(0, 1, 2, 3)), perm, serr, 0, uint8(r.Pick(0, 0, qDir)), 0, false)
 			case 8:
 				op = tOp(ci, Tread, pickFid(ci, 1), 0, 0, counts[r.Intn(len(counts))], serr, 0, 0, int64(r.Intn(1000)), false)
